@@ -76,19 +76,22 @@ def rand_op(rng, cfg, nreq, spawned, simple, allow_size):
     return {"o": "cancel", "ids": []} if rng.random() < 0.3 else {"o": "unlock"}
 
 
-def make(seed, calm=False, allow_size=False, length=None):
+def make(seed, calm=False, allow_size=False, length=None, cfgseed=None):
+    """cfgseed: draw the pool configuration from this (small) seed space, so that many schedules share a configuration
+    and can be followed in the implementation-level specification in one TLC run (spec/PoolFollow.tla)."""
     rng = random.Random(seed)
-    simple = rng.random() < 0.3
-    size = rng.choice([0, 1, 1, 2, 2, 3, -1])
-    nreq = rng.choice([1, 2, 2, 3])
+    crng = rng if cfgseed is None else random.Random("cfg-%s-%s" % (cfgseed, calm))
+    simple = crng.random() < 0.3
+    size = crng.choice([0, 1, 1, 2, 2, 3, -1])
+    nreq = crng.choice([1, 2, 2, 3])
     cfg = {"cls": "SimpleTaskPool" if simple else "TaskPool", "size": size}
     if simple:
-        cfg["simple"] = rand_plan(rng, calm)
-        if not calm and rng.random() < 0.2:
-            cfg["simple"]["bad"] = [rng.randrange(0, 4)]
+        cfg["simple"] = rand_plan(crng, calm)
+        if not calm and crng.random() < 0.2:
+            cfg["simple"]["bad"] = [crng.randrange(0, 4)]
         cfg["reqs"] = []
     else:
-        cfg["reqs"] = [rand_template(rng, calm, r) for r in range(nreq)]
+        cfg["reqs"] = [rand_template(crng, calm, r) for r in range(nreq)]
     n = length or rng.choice([6, 10, 16, 24, 40])
     cmds = []
     counter = iter(range(10 ** 6))
